@@ -11,6 +11,10 @@ R4s  `for X in [&]PATH { B }`  (X an identifier, PATH an identifier / field path
      Definitional for slices and `Vec`: `IntoIterator for &[T]` / `&Vec<T>` yields `&PATH[0], &PATH[1], …` and PATH is
      borrowed immutably for the whole loop.  If PATH is not an indexable collection the rewritten text does not type-check
      (rustc rejects it, exit 2).  Same argument as R4a.
+
+R4u  `for _ in E`  ->  `for vx_u in E`
+     Alpha-renaming of the unused loop pattern so that loop invariants can name the iteration count; `vx_u` is not used
+     by the body (the identifier does not occur in the source, rustc would reject a clash).
 """
 from ..lexer import lex, sig
 from ..extract import match_close
@@ -69,4 +73,18 @@ def r4s_slice_for(text, log):
             return text
 
 
-RULES = {"R15": r15_anyhow, "R4s": r4s_slice_for}
+def r4u_named_unused(text, log):
+    st = sig(lex(text))
+    if any(t.kind == "ident" and t.text == "vx_u" for t in st):
+        raise RewriteError("R4u: identifier vx_u already occurs")
+    edits = []
+    for i, t in enumerate(st):
+        if t.kind == "ident" and t.text == "for" and i + 2 < len(st) and st[i + 1].text == "_" and st[i + 2].text == "in":
+            edits.append((st[i + 1].start, st[i + 1].end, "vx_u"))
+    if edits:
+        log["R4u for _ -> for vx_u"] = log.get("R4u for _ -> for vx_u", 0) + len(edits)
+    from ..rewrite import apply_edits
+    return apply_edits(text, edits)
+
+
+RULES = {"R4u": r4u_named_unused, "R15": r15_anyhow, "R4s": r4s_slice_for}
